@@ -45,7 +45,7 @@ def norm_e(e):
 def norm_dim(d):
     if d[0] == "ix":
         return ("ix", norm_e(d[1]))
-    return ("rng", None if d[1] is None else norm_e(d[1]), None if d[2] is None else norm_e(d[2]))
+    return ("rng", None if d[1] is None else norm_e(d[1]), None if d[2] is None else norm_e(d[2])) + tuple(d[3:])
 
 
 def norm_s(ss):
@@ -65,6 +65,30 @@ def norm_s(ss):
     return out
 
 
+def canon_secs(ss, bnds):
+    """section bounds equal to the declared bounds are the same as omitted ones."""
+    def act(a):
+        if a[0] != "sec" or a[1] not in bnds or len(bnds[a[1]]) != len(a[2]):
+            return a
+        ds = []
+        for d, (lb, ub) in zip(a[2], bnds[a[1]]):
+            if d[0] == "rng":
+                d = ("rng", None if d[1] == ("lit", lb) else d[1], None if d[2] == ("lit", ub) else d[2]) + tuple(d[3:])
+            ds.append(d)
+        return ("sec", a[1], ds)
+    out = []
+    for s in ss:
+        if s[0] == "call":
+            out.append(("call", s[1], [act(a) for a in s[2]]))
+        elif s[0] == "if":
+            out.append(("if", s[1], canon_secs(s[2], bnds), canon_secs(s[3], bnds)))
+        elif s[0] == "do":
+            out.append(("do",) + tuple(s[1:5]) + (canon_secs(s[5], bnds),))
+        else:
+            out.append(s)
+    return out
+
+
 # ----------------------------------------------------------------------------- Fortran text
 def actual_to_fortran(a):
     if a[0] == "sec":
@@ -74,7 +98,8 @@ def actual_to_fortran(a):
                 ds.append(mf.expr_to_fortran(d[1]))
             else:
                 ds.append("%s:%s" % ("" if d[1] is None else mf.expr_to_fortran(d[1]),
-                                     "" if d[2] is None else mf.expr_to_fortran(d[2])))
+                                     "" if d[2] is None else mf.expr_to_fortran(d[2])) +
+                          (":" + mf.expr_to_fortran(d[3]) if len(d) > 3 else ""))
         return "%s(%s)" % (a[1], ", ".join(ds))
     return mf.expr_to_fortran(a)
 
@@ -219,11 +244,12 @@ def actual_x(node):
         dims = []
         for pos, c in enumerate(node.indices):
             if isinstance(c, N.Range):
-                if not (isinstance(c.step, N.Literal) and c.step.value == "1"):
-                    raise mf.OutOfSubset("strided section")
                 lo = None if node.is_lower_bound(pos) else expr_x(c.start)
                 hi = None if node.is_upper_bound(pos) else expr_x(c.stop)
-                dims.append(("rng", lo, hi))
+                if not (isinstance(c.step, N.Literal) and c.step.value == "1"):
+                    dims.append(("rng", lo, hi, expr_x(c.step)))
+                else:
+                    dims.append(("rng", lo, hi))
             else:
                 dims.append(("ix", expr_x(c)))
         return ("sec", node.name.lower(), dims)
@@ -434,6 +460,8 @@ def bind_call(case, actuals, fr, S):
             if fr.b is not None:
                 raise NonConforming("nested calls unsupported")
             g, dims = a[1], a[2]
+            if any(len(d) > 3 for d in dims):
+                raise NonConforming("strided section unsupported")
             ab = fr.bounds(S, g)
             if len(ab) != len(dims):
                 raise NonConforming("rank")
@@ -567,6 +595,12 @@ def run_impl(case, text=None):
     res = {"text": text}
     res["orig"] = norm_s(stmts_x(caller.children))
     before = set(caller.symbol_table.symbols_dict.keys())
+    res["own_names"] = [n.lower() for n in caller.symbol_table.symbols_dict.keys()]
+    outer_names, tab = [], caller.symbol_table.parent_symbol_table()
+    while tab is not None:
+        outer_names += [n.lower() for n in tab.symbols_dict.keys()]
+        tab = tab.parent_symbol_table()
+    res["outer_names"] = outer_names
     calls = [c for c in caller.walk(Call) if not isinstance(c, IntrinsicCall)]
     try:
         InlineTrans().apply(calls[0])
@@ -778,8 +812,9 @@ def in_model_fragment(case):
     return True, ""
 
 
-def encode_callsite(case, nm):
-    """-> Coq term of type callsite (coq/C07/Model.v)."""
+def encode_callsite(case, nm, own_names=None, outer_names=None):
+    """-> Coq term of type callsite (coq/C07/Model.v).  own_names / outer_names: the names really
+    present in the calling routine's symbol table / in its enclosing scopes."""
     call = find_call(case["caller"])
     bnds = caller_bounds(case)
     fs = []
@@ -799,12 +834,16 @@ def encode_callsite(case, nm):
             ds = []
             for k, v in dims_of_actual(case, a):
                 ds.append("DFull (%d)" % v if k == "full" else "D%s %s" % ("Fix" if k == "fix" else "From", mf.expr_to_coq(v, nm)))
-            acts.append("(AArr %d%%nat [%s] %s)" % (nm.get(a[1]), "; ".join(ds), "false" if a[-1] == "strided" else "true"))
+            acts.append("(AArr %d%%nat [%s] %s)" % (nm.get(a[1]), "; ".join(ds), "true" if all(len(d) == 3 for d in a[2] if d[0] == "rng") else "false"))
         else:
             acts.append("(AExpr %s)" % mf.expr_to_coq(a, nm))
     locs = "; ".join("(%d%%nat, %s)" % (nm.get(ln), "true" if flag == "save" else "false") for ln, _, flag in case["locals"])
-    own = "; ".join("%d%%nat" % nm.get(n) for n, _ in case["own"])
-    outer = "; ".join("%d%%nat" % nm.get(n) for n in [n for n, _ in case["outer"]] + ["m", "run", "s"])
+    if own_names is None:
+        own_names = [n for n, _ in case["own"]] + ["run"]
+    if outer_names is None:
+        outer_names = [n for n, _ in case["outer"]] + ["run", "s"]
+    own = "; ".join("%d%%nat" % nm.get(n) for n in own_names)
+    outer = "; ".join("%d%%nat" % nm.get(n) for n in outer_names)
     return "(mkCS [%s] [%s] %s [%s] [%s] [%s])" % ("; ".join(fs), locs, mf.stmts_to_coq(case["body"], nm),
                                                    "; ".join(acts), own, outer)
 
